@@ -292,6 +292,63 @@ func runC19(c *h.Ctx) {
 		}
 	})
 
+	// wide containers of complex elements: the depth limit counts nesting levels, not elements
+	c.Run("skip-wide", c.N(24, 96), func(cs *h.Case) {
+		n := []int{1022, 1023, 1024, 1500, 4096, 70000}[cs.I%6]
+		var v *tref.Val
+		switch (cs.I / 6) % 4 {
+		case 0:
+			v = &tref.Val{T: tref.LIST, ET: tref.STRUCT}
+			for i := 0; i < n; i++ {
+				v.L = append(v.L, tref.Struct())
+			}
+		case 1:
+			v = &tref.Val{T: tref.SET, ET: tref.LIST}
+			for i := 0; i < n; i++ {
+				v.L = append(v.L, tref.List(tref.BYTE, tref.Byte(int8(i))))
+			}
+		case 2:
+			v = &tref.Val{T: tref.MAP, KT: tref.I32, ET: tref.STRUCT}
+			for i := 0; i < n; i++ {
+				v.K = append(v.K, tref.Int32(int32(i)))
+				v.L = append(v.L, tref.Struct(tref.Field{ID: 1, V: tref.Bool(true)}))
+			}
+		default:
+			v = &tref.Val{T: tref.LIST, ET: tref.MAP}
+			for i := 0; i < n; i++ {
+				v.L = append(v.L, &tref.Val{T: tref.MAP, KT: tref.BYTE, ET: tref.BYTE})
+			}
+		}
+		root := tref.Struct(tref.Field{ID: 1, V: v}, tref.Field{ID: 2, V: tref.Int32(7)})
+		b := tref.Encode(root)
+		for _, x := range []*tref.Val{v, root} {
+			sub := b[x.Start:]
+			tr := h.TrapCopy(sub, true, true)
+			wantAdv := x.End - x.Start
+			for mode := 0; mode < 4; mode++ {
+				p := &thrift.BinaryProtocol{Buf: tr.B}
+				var err error
+				name := []string{"SkipGo", "SkipNative", "Skip(false)", "Skip(true)"}[mode]
+				switch mode {
+				case 0:
+					err = p.SkipGo(tt(x.T), thrift.MaxSkipDepth)
+				case 1:
+					err = p.SkipNative(tt(x.T), thrift.MaxSkipDepth)
+				case 2:
+					err = p.Skip(tt(x.T), false)
+				default:
+					err = p.Skip(tt(x.T), true)
+				}
+				if err != nil || p.Read != wantAdv {
+					cs.Viol("skip-wide:"+name+":"+tref.TypeName(v.T)+"<"+tref.TypeName(v.ET)+">", "err", err, "advanced", p.Read, "want", wantAdv, "elements", n)
+				}
+				cs.Cover("skip_wide_calls")
+			}
+			tr.Free()
+		}
+		cs.Distinct(fmt.Sprintf("skipw-%d-%d", n, (cs.I/6)%4))
+	})
+
 	// ---- WriteAny / ReadAny (descriptor-free) -------------------------------------
 	c.Run("any", c.N(1500, 60000), func(cs *h.Case) {
 		sc := gen.GenSchema(cs.R, gen.Cfg{MaxDepth: 3, MaxFields: 5, StructKeys: true, BigIDs: true, NoSet: true})
